@@ -56,7 +56,7 @@ static void run() {
         auto t = lib::tokens(ph); if (*in_range<int>(0, 2)) { std::vector<std::string> comp; for (auto& x : t) comp.push_back(model::nfc(x)); t = comp; }
         int nmut = *in_range<int>(0, 4); std::vector<std::string> seps(15, " "); std::string lead, trail; std::string gn = "valid";
         for (int i = 0; i < nmut; i++) {
-            int op = *in_range<int>(0, 14); size_t p = *in_range<size_t>(0, t.size() ? t.size() : 1);
+            int op = *in_range<int>(0, 15); size_t p = *in_range<size_t>(0, t.size() ? t.size() : 1);
             switch (op) {
             case 0: if (p < seps.size()) seps[p] = "  "; gn = "sep-doubled"; break;
             case 1: lead = *rc::gen::element<std::string>(" ", "  ", "\xe3\x80\x80", "\xc2\xa0"); gn = "leading-sep"; break;
@@ -72,6 +72,7 @@ static void run() {
             case 11: if (!t.empty() && t.size() > 1) std::swap(t[p], t[(p + 1) % t.size()]); gn = "tokens-swapped"; break;
             case 12: coin = (coin ^ (1u << *in_range<int>(0, 11))) & 2047u; gn = "other-coin"; break;
             case 13: if (!t.empty()) { const lib::LibWords& lw = lib::lib_words(le); if (lw.ok) t[p] = lw.w[*in_range<int>(0, 2048)]; } gn = "token-substituted"; break;
+            case 14: if (!t.empty()) { size_t q = *in_range<int>(0, 2) ? 0 : p % t.size(); t[q] = *rc::gen::element<std::string>("\xef\xbb\xbf", "\xe2\x80\x8b", "\xcc\x81", "\xe2\x81\xa0", "\xc2\xb7", "\xe7\x9a\x84") + t[q]; } gn = "token-prefixed-nonascii"; break;
             }
         }
         std::string s = lead; for (size_t i = 0; i < t.size(); i++) { if (i) s += seps[(i - 1) % seps.size()]; s += t[i]; } s += trail;
